@@ -38,6 +38,7 @@ package datastore
 //@ func repoManager.loadMetadata
 //@   prop C04 C12
 //@   safety_off
+//@   calls_havoc
 //@   requires m != nil
 //@   modifies *
 //@   assume at "m.versionID = v + 1": v < 0xFFFFFFFF
@@ -170,6 +171,7 @@ package datastore
 //@ func repoManager.newRepo
 //@   prop C07 C04
 //@   safety_off
+//@   calls_havoc
 //@   requires m != nil
 //@   modifies *
 //@   ghost cachePersisted bool = false
@@ -182,6 +184,7 @@ package datastore
 //@ func repoManager.newVersion
 //@   prop C07
 //@   safety_off
+//@   calls_havoc
 //@   requires m != nil
 //@   modifies *
 //@   invariant loop 1: forall j int :: {node.children[j]} 0 <= j && j <= rangeindex ==> has(r.dag.nodes, node.children[j]) && r.dag.nodes[node.children[j]].branch != branchname
@@ -193,6 +196,7 @@ package datastore
 //@ func repoManager.merge
 //@   prop C07
 //@   safety_off
+//@   calls_havoc
 //@   requires m != nil
 //@   modifies *
 //@   invariant loop 1: forall j int :: {parents[j]} 0 <= j && j <= rangeindex ==> has(m.uuidToVersion, parents[j]) && has(r.dag.nodes, m.uuidToVersion[parents[j]]) && r.dag.nodes[m.uuidToVersion[parents[j]]].locked
@@ -204,6 +208,7 @@ package datastore
 //@ func repoManager.commit
 //@   prop C07 C03
 //@   safety_off
+//@   calls_havoc
 //@   requires m != nil
 //@   modifies *
 //@   ghost saved bool = false
@@ -213,3 +218,52 @@ package datastore
 //@   ghostset at "if len(note) != 0 {": setLocked = node.locked
 //@   ghostset at "return r.save()": saved = true
 //@   ensures result == nil ==> saved && !wasLocked && setLocked
+
+// ---- copying a data instance (C19): the two receiving goroutines of copyData ----
+// Every key-value pair handed to a receiver is stored in the destination unless one of the
+// documented reasons applies (undecodable key, filter error, filter says skip). Ghost `reason`
+// must be non-zero whenever the loop goes round again: 1 = start / key not decodable,
+// 2 = filter error, 3 = filtered out, 4 = stored.
+
+//@ func copyData$3
+//@   prop C19
+//@   safety_off
+//@   calls_havoc
+//@   modifies *
+//@   ghost reason int = 1
+//@   ghostset at "kv := <-ch": reason = 0
+//@   ghostset at "couldn't get %q TKey from Key": reason = 1
+//@   ghostset at "skip, err := f.Check(&storage.TKeyValue{K: tkey, V: kv.V})": reason = 2
+//@   ghostset at "kvSent++": reason = 0
+//@   ghostset at "stats.addKV(kv.K, kv.V)": reason = 4
+//@   ghost putK []byte = nil
+//@   ghost putV []byte = nil
+//@   ghost gotV []byte = nil
+//@   ghostset at "tkey, err := storage.TKeyFromKey(kv.K)": gotV = kv.V
+//@   ghostset at "if err := newKV.RawPut(kv.K, kv.V); err != nil {": putV = kv.V
+//@   assert at "stats.addKV(kv.K, kv.V)": sameslice(putV, gotV)
+//@   invariant loop 1: reason != 0
+
+//@ func copyData$1
+//@   prop C19
+//@   safety_off
+//@   calls_havoc
+//@   modifies *
+//@   ghost reason int = 1
+//@   ghostset at "tkv := <-ch": reason = 0
+//@   ghostset at "skip, err := f.Check(tkv)": reason = 2
+//@   ghostset at "kvSent++": reason = 0
+//@   ghostset at "stats.addKV(tkv.K, tkv.V)": reason = 4
+//@   ghost putK []byte = nil
+//@   ghost putV []byte = nil
+//@   ghostset at "if err := newKV.Put(dstCtx, tkv.K, tkv.V); err != nil {": putK = tkv.K
+//@   ghostset at "if err := newKV.Put(dstCtx, tkv.K, tkv.V); err != nil {": putV = tkv.V
+//@   assert at "stats.addKV(tkv.K, tkv.V)": sameslice(putK, tkv.K) && sameslice(putV, tkv.V)
+//@   invariant loop 1: reason != 0
+
+// copyData: the raw copy scans exactly the source instance's key range [0x01.id, 0x01.(id+1)).
+//@ func copyData
+//@   prop C19
+//@   safety_off
+//@   modifies *
+//@   assert at "if err = oldKV.RawRangeQuery(begKey, endKey, keysOnly, ch, nil); err != nil {": instPrefix(begKey, uint32(d1.InstanceID())) && instPrefix(endKey, uint32(d1.InstanceID()) + 1)
